@@ -313,7 +313,7 @@ class Ref:
 
 
 def tkey(v):
-    if isinstance(v, (Poly, Rec, Cond, Opq, Comp, Closure, Ref)): return v.key()
+    if isinstance(v, (Poly, Rec, Cond, Opq, Comp, Closure, Ref, _Keyed)): return v.key()
     if isinstance(v, dict): return ('dict', tuple(sorted(((tkey(k), tkey(x)) for k, x in v.items()), key=repr)))
     if isinstance(v, tuple): return ('tuple', tuple(tkey(x) for x in v))
     if isinstance(v, list): return ('list', tuple(tkey(x) for x in v))
@@ -1396,7 +1396,7 @@ class Evaluator:
             base_, fl_ = _fuse_iter2(_fuse_iter(it_))
             g_ = s.truth(s.apply(args[0], [x_], {}, mod, depth))
             return Comp(x_, [(base_, fl_ + ([g_] if g_ is not True else []))], 'list')
-        if name == 'map' and len(args) == 2 and not kw and isinstance(args[0], (Closure, Ref)):
+        if name == 'map' and len(args) == 2 and not kw and (isinstance(args[0], (Closure, Ref)) or (isinstance(args[0], Poly) and args[0].as_atom() is not None)):
             # map(f, xs) == [f(x) for x in xs]
             it_ = _iter_view(args[1]); x_ = s.elem_of(it_, 0)
             return Comp(s.apply(args[0], [x_], {}, mod, depth), [(_fuse_iter(it_), [])], 'list')
@@ -2185,8 +2185,29 @@ def _is_arraylike(v):
 def term_from_key(k):
     """polynomial (or string / number) denoted by a key"""
     if isinstance(k, tuple) and k[:1] == ('poly',): return Poly({mono: c for mono, c in k[1:]})
-    if isinstance(k, (str, int)): return k
+    if isinstance(k, (str, int)) or k is None: return k
+    if isinstance(k, tuple) and k[:1] == ('cond',) and len(k) == 4:
+        g, a, b = (term_from_key(x) for x in k[1:])
+        o = object.__new__(Cond); o.g = g; o.a = a; o.b = b
+        return o
+    if isinstance(k, tuple) and k[:1] == ('opq',): return Opq(*[_sub_from_key(x) for x in k[1:]])
+    if isinstance(k, tuple) and k[:1] in (('tuple',), ('list',)) and len(k) == 2:
+        xs = [_sub_from_key(x) for x in k[1]]
+        return tuple(xs) if k[0] == 'tuple' else xs
     return None
+
+
+class _Keyed:
+    """a sub-term known only by its key"""
+    def __init__(s, k): s.k = k
+    def key(s): return s.k
+    def __repr__(s): return show(s.k) if isinstance(s.k, tuple) else repr(s.k)
+
+
+def _sub_from_key(k):
+    t = term_from_key(k)
+    if t is None and k is not None: return _Keyed(k)
+    return t
 
 
 def subst_key(k, old, new, old_atom=None, new_atom=None):
